@@ -261,3 +261,25 @@ def kick_pair(timeout_ops=2.0):
             pass
         out.append((r, [x[1].decode("latin-1") for x in t.trace if x[0] == "W"]))
     return out[0], out[1], round(time.time() - t0, 2)
+
+
+# ---------------------------------------------------------------- the peer closes the session (run in a child process with a hard
+# time limit: before /repo a610fb2 the asyncio stack never returned from such a scenario)
+def drop_pair_subprocess(drop_after=20, limit_s=25):
+    """-> (sync exception classes per op, async ..., None) or (None, None, reason)"""
+    import json, os, subprocess, sys
+    scn = {"platform": "cisco_iosxe", "dev": {"platform": "cisco_iosxe", "trailing": ""}, "telnet": {"user": "admin", "password": "pw"},
+           "conn": {"timeout_socket": 2, "timeout_ops": 3, "timeout_transport": 3}, "server": {"drop_after": drop_after},
+           "ops": [["open"], ["send_command", "show version"]]}
+    code = ("import sys, json; sys.path.insert(0, %r); from vlib import common; common.use_repo(); from harness import c06telnet as T; "
+            "s, a = T.run_pair(json.loads(sys.argv[1])); print('RESULT' + json.dumps([[o.get('exc') for o in s['ops']], [o.get('exc') for o in a['ops']]]))"
+            % os.path.dirname(os.path.dirname(os.path.abspath(__file__))))
+    try:
+        p = subprocess.run([sys.executable, "-c", code, json.dumps(scn)], capture_output=True, text=True, timeout=limit_s)
+    except subprocess.TimeoutExpired:
+        return None, None, "did not finish within %d s (an operation never returned)" % limit_s
+    for line in p.stdout.splitlines():
+        if line.startswith("RESULT"):
+            es, ea = json.loads(line[6:])
+            return es, ea, None
+    return None, None, (p.stderr or "no result")[-300:]
